@@ -128,6 +128,10 @@ fn gen_contexts(p: &[u64; 8]) -> Gen {
         // 300 reachable productions: indices beyond 255 take part in the item sets of a u16 and a u32 build
         let alts: Vec<String> = (0..300).map(|i| format!("'t{}'", i)).collect();
         format!("%start S\n%%\nS: {};\n", alts.join(" | "))
+    } else if p[1] == 5 {
+        // 2^11 equally good repair sequences for `x y` (eleven independent choices): whatever is reported,
+        // and in which order, must not depend on the width (recovery is on for this case)
+        format!("%start S\n%%\nS: 'x' {} 'y';\nT: 'a' | 'b';\n", vec!["T"; 11].join(" "))
     } else {
         grammar::general_contexts(&mut rng)
     };
@@ -194,6 +198,9 @@ fn gen_contexts(p: &[u64; 8]) -> Gen {
     }
     if p[1] == 1 {
         inputs = vec![vec!["a".to_string(), "c".to_string()], vec!["a".to_string()], vec!["c".to_string()], vec!["a".to_string(), "p".to_string(), "c".to_string()]];
+    }
+    if p[1] == 5 {
+        inputs = vec![vec!["x".to_string(), "y".to_string()], vec!["x".to_string(), "a".to_string(), "b".to_string(), "y".to_string()]];
     }
     inputs.truncate(40);
     Gen { yk: YaccKind::Original(YaccOriginalActionKind::GenericParseTree), text, src, inputs, token_names: toks, parse_ok: true }
